@@ -44,7 +44,11 @@ type Type struct {
 	Mut      bool
 	Params   []*Type
 	Ret      *Type
+	Byte     bool // the `byte` type (printed as a character)
 }
+
+// TByte is the element type of string indexing.
+var TByte = &Type{K: KInt, Bits: 8, Byte: true}
 
 var (
 	TBool = &Type{K: KBool}
@@ -70,6 +74,9 @@ func IntT(bits int, signed bool) *Type {
 func (t *Type) String() string {
 	switch t.K {
 	case KInt:
+		if t.Byte {
+			return "byte"
+		}
 		if t.Signed {
 			return fmt.Sprintf("i%d", t.Bits)
 		}
@@ -312,8 +319,9 @@ type Print struct{ Args []Expr }
 type Break struct{}
 type Continue struct{}
 type Append struct {
-	Arr Expr // place of []T
-	Val Expr
+	Arr      Expr // place of []T (or a variable of type &'[]T when NoBorrow)
+	Val      Expr
+	NoBorrow bool // append(a, v) with a: &'[]T
 }
 type Block struct{ Body []Stmt }
 
